@@ -128,6 +128,10 @@ class LegInterp:
         if isinstance(t, ast.Name):
             self.env[t.id] = v
         elif isinstance(t, (ast.Tuple, ast.List)):
+            if isinstance(v, Opaque):
+                for x in t.elts:
+                    self.assign(x, Opaque(v.text), node)
+                return
             if not isinstance(v, TupleVal) or len(v.items) != len(t.elts):
                 raise LegError(f'{self.fi.qual}: cannot unpack `{norm(node)[:60]}`')
             for x, y in zip(t.elts, v.items):
@@ -191,6 +195,14 @@ class LegInterp:
             if key in self.env:
                 return self.env[key]
             base = self.ev(e.value)
+            if isinstance(base, Opaque) and isinstance(e.slice, ast.Slice) and e.slice.lower is not None and \
+                    e.slice.upper is not None and e.slice.step is None:
+                # X[a:a+n] of a label list: the n elements X[a], ..., X[a+n-1]
+                from .affine import try_affine
+                lo_, up_ = try_affine(e.slice.lower), try_affine(e.slice.upper)
+                if lo_ is not None and up_ is not None and (up_ - lo_).is_const() and 0 < (up_ - lo_).c <= 4:
+                    from .affine import Affine
+                    return TupleVal([Opaque(f'{base.text}[{lo_ + Affine.const(k)}]') for k in range(int((up_ - lo_).c))])
             if isinstance(base, ShapeVal):
                 i = _int(e.slice)
                 if i is None or not -len(base.dims) <= i < len(base.dims):
@@ -282,6 +294,8 @@ class LegInterp:
                 return [v.dim]
             if isinstance(v, QV) and len(v.items) == 1:
                 return [f'len({v.items[0][1]})']
+            if isinstance(v, Opaque):
+                return [f'len({v.text})']
             return [f'len({norm(x.args[0])})']
         v = self.ev(x)
         return self.dim_product(v, x)
@@ -378,7 +392,8 @@ class LegInterp:
                 return DimVal([v.dim])
             if isinstance(v, ShapeVal):
                 return Scalar(str(len(v.dims)))
-            t = v.items[0][1] if isinstance(v, QV) and len(v.items) == 1 else norm(e.args[0])
+            t = v.items[0][1] if isinstance(v, QV) and len(v.items) == 1 else (
+                v.text if isinstance(v, Opaque) else norm(e.args[0]))
             return DimVal([f'len({t})'])
         if f in ('qnumber_flatten', 'qnumber_outer_sum') and len(e.args) == 1:
             lst = e.args[0]
@@ -431,6 +446,8 @@ class LegInterp:
                 env[k.arg] = self.ev(k.value)
                 if isinstance(k.value, ast.Constant):
                     consts[k.arg] = k.value.value
+        if not any(isinstance(v, TVal) for v in env.values()):
+            return Opaque(norm(e))         # no tracked tensor takes part in this call
         for p in callee.params:
             if p not in env and p in callee.defaults:
                 d = callee.defaults[p]
